@@ -200,6 +200,19 @@ static void run_case(Rng& r, Ctx& c)
       c.check("node-unrotated", "C16:node-geometry:flag_rotate=false:" + cls, e7 <= ctol, e7, ctol, fmt("rank %ld %s", rk, gdet.c_str()));
     }
 
+    // cell corners: getCellCoordinatesByCorner(node, shift) "shift 0: no shift; -1: minus half a cell-width; +1 plus
+    // half a cell-width"
+    if (rk % std::max(1L, N / 300) == 0)
+    {
+      std::vector<int> sh(nd);
+      std::vector<LD> f(nd);
+      for (int k = 0; k < nd; k++) { sh[k] = r.irange(-1, 1); f[k] = (LD)idx[k] + (LD)sh[k] / 2; }
+      VectorDouble cc = grid.getCellCoordinatesByCorner((int)rk, VI(sh));
+      double ec       = maxdiff(cc, refg::coord(g, f));
+      c.check("cell-corner", "C16:cell-corner:misplaced:" + cls, ec <= ctol, ec, ctol,
+              fmt("rank %ld shift %s %s", rk, vstr(sh).c_str(), gdet.c_str()));
+    }
+
     // indices -> coordinates -> indices ; rank -> coordinates -> rank (both cell conventions contain their node)
     for (int cen = 0; cen < 2; cen++)
     {
@@ -211,6 +224,16 @@ static void run_case(Rng& r, Ctx& c)
       c.truth(cen ? "rank-coord-rank-centered" : "rank-coord-rank", fmt("C16:rank-coord-rank:centered=%d:%s", cen, cls.c_str()), rb == rk,
               fmt("rank %ld -> %s -> %d %s", rk, vstrd(coor.getVector()).c_str(), rb, gdet.c_str()));
     }
+  }
+
+  // grid corners: getCoordinatesByCorner "icorner Vector specifying the corner (0: minimum; 1: maximum)"
+  for (int q = 0; q < 4; q++)
+  {
+    std::vector<int> ic(nd), idc(nd);
+    for (int k = 0; k < nd; k++) { ic[k] = r.irange(0, 1); idc[k] = ic[k] ? g.nx[k] - 1 : 0; }
+    VectorDouble cc = grid.getCoordinatesByCorner(VI(ic));
+    double ec       = maxdiff(cc, refg::coordI(g, idc));
+    c.check("grid-corner", "C16:grid-corner:misplaced:" + cls, ec <= ctol, ec, ctol, fmt("corner %s %s", vstr(ic).c_str(), gdet.c_str()));
   }
 
   // ---------------------------------------------------------------------------------------------------------------
@@ -247,6 +270,25 @@ static void run_case(Rng& r, Ctx& c)
                 det + fmt(" -> rc=%d %s", rc, vstr(ind.getVector()).c_str()));
         int rb = grid.coordinateToRank(x, centered);
         c.truth("point-in-cell-rank", "C16:point-in-cell:wrong-rank:" + kc, rb == grid.indiceToRank(cell), det + fmt(" -> rank %d", rb));
+        {
+          // DbGrid-free snapping: the node of the cell found above is where indicesToCoordinate puts it
+          VectorDouble nodec = grid.indicesToCoordinate(ind);
+          double es          = maxdiff(nodec, refg::coordI(g, cell));
+          c.check("point-cell-node", "C16:point-in-cell:node-of-cell-misplaced:" + kc, es <= ctol, es, ctol, det);
+        }
+        if (centered)
+        {
+          // Grid::sampleBelongsToCell(coor, rank): "Check if a sample belongs to a Grid Cell ... rank Rank of the Grid
+          // cell", the cell being centred on its node ("center Coordinates of the grid node center")
+          int rcell = grid.indiceToRank(cell);
+          c.truth("belongs-to-cell", "C16:sampleBelongsToCell:own-cell-rejected:" + cls, grid.sampleBelongsToCell(x, rcell), det);
+          std::vector<int> nb = cell;
+          int kk = r.irange(0, nd - 1);
+          nb[kk] += (nb[kk] + 1 < g.nx[kk]) ? 1 : -1;
+          if (nb[kk] >= 0)
+            c.truth("belongs-to-other-cell", "C16:sampleBelongsToCell:neighbour-cell-accepted:" + cls,
+                    !grid.sampleBelongsToCell(x, grid.indiceToRank(nb)), det + " neighbour " + vstr(nb));
+        }
       }
       else
       {
@@ -323,6 +365,29 @@ static void run_case(Rng& r, Ctx& c)
       c.check("dbgrid-stored", "C16:dbgrid:stored-coordinates:" + cls, e1 <= ctol, e1, ctol, fmt("rank %ld %s", rk, gdet.c_str()));
       c.check("dbgrid-reported", "C16:dbgrid:reported-coordinates:" + cls, e2 <= ctol, e2, ctol, fmt("rank %ld %s", rk, gdet.c_str()));
     }
+  }
+
+  // DbGrid::centerCoordinateInPlace(coor, centered): the point is moved onto the node of its cell
+  for (int q = 0; q < 10; q++)
+  {
+    bool centered = r.coin();
+    std::vector<int> cell(nd);
+    std::vector<LD> f(nd);
+    for (int k = 0; k < nd; k++)
+    {
+      cell[k] = r.irange(0, g.nx[k] - 1);
+      f[k]    = centered ? (LD)cell[k] + (LD)r.uni(-0.49, 0.49) : (LD)cell[k] + (LD)r.uni(0.01, 0.99);
+    }
+    std::vector<LD> xl = refg::coord(g, f);
+    VectorDouble x(nd);
+    for (int k = 0; k < nd; k++) x[k] = (double)xl[k];
+    int rb  = db->coordinateToRank(x, centered);
+    c.truth("dbgrid-point-rank", fmt("C16:dbgrid:coordinateToRank:centered=%d:%s", (int)centered, cls.c_str()),
+            rb == grid.indiceToRank(cell), fmt("cell %s got rank %d %s", vstr(cell).c_str(), rb, gdet.c_str()));
+    int rc2 = db->centerCoordinateInPlace(x, centered, true);
+    double e = maxdiff(x, refg::coordI(g, cell));
+    c.check("dbgrid-center", fmt("C16:dbgrid:centerCoordinateInPlace:centered=%d:%s", (int)centered, cls.c_str()),
+            rc2 == 0 && e <= ctol, e, ctol, fmt("cell %s rc=%d %s", vstr(cell).c_str(), rc2, gdet.c_str()));
   }
 
   // ---------------------------------------------------------------------------------------------------------------
